@@ -207,6 +207,79 @@ fn opt_display_checks(o: &Obs, bits: u32) {
     let _ = &t;
 }
 
+/// Trait objects whose concrete types differ in SIZE but compare equal through a lawful `PartialEq for dyn Trait`
+/// (by area): the handle's `==` / `!=` / ordering must be the values', whatever `size_of_val` says.
+trait Area: Send + Sync {
+    fn area(&self) -> u32;
+}
+struct Sq(u16);
+struct Rect(u32, u32);
+struct Wide([u32; 6]);
+impl Area for Sq {
+    fn area(&self) -> u32 {
+        self.0 as u32 * self.0 as u32
+    }
+}
+impl Area for Rect {
+    fn area(&self) -> u32 {
+        self.0.wrapping_mul(self.1)
+    }
+}
+impl Area for Wide {
+    fn area(&self) -> u32 {
+        self.0.iter().fold(0u32, |a, b| a.wrapping_add(*b))
+    }
+}
+impl PartialEq for dyn Area {
+    fn eq(&self, o: &Self) -> bool {
+        self.area() == o.area()
+    }
+}
+impl PartialOrd for dyn Area {
+    fn partial_cmp(&self, o: &Self) -> Option<Ordering> {
+        self.area().partial_cmp(&o.area())
+    }
+}
+impl Hash for dyn Area {
+    fn hash<H: Hasher>(&self, h: &mut H) {
+        self.area().hash(h)
+    }
+}
+
+fn dyn_checks(o: &Obs, seed: u32) {
+    let n = (seed % 9) as u16 + 1;
+    let mk = |which: u32| -> Arc<dyn Area> {
+        let area = n as u32 * n as u32;
+        match which % 3 {
+            0 => {
+                let raw: *const Sq = Arc::into_raw(Arc::new(Sq(n)));
+                unsafe { Arc::from_raw(raw as *const dyn Area) }
+            }
+            1 => {
+                let raw: *const Rect = Arc::into_raw(Arc::new(Rect(1, area)));
+                unsafe { Arc::from_raw(raw as *const dyn Area) }
+            }
+            _ => {
+                let raw: *const Wide = Arc::into_raw(Arc::new(Wide([area, 0, 0, 0, 0, 0])));
+                unsafe { Arc::from_raw(raw as *const dyn Area) }
+            }
+        }
+    };
+    for (i, j) in [(0, 1), (1, 2), (0, 2), (2, 0)] {
+        let (a, b) = (mk(i), mk(j));
+        let (eq, ne) = (a == b, a != b);
+        if !eq || ne || (*a != *b) {
+            o.fail("dyn-eq", format!("two Arc<dyn Trait> over concrete types of sizes {} and {} whose values are equal: == is {}, != is {}", std::mem::size_of_val(&*a), std::mem::size_of_val(&*b), eq, ne));
+        }
+        if a.partial_cmp(&b) != Some(Ordering::Equal) || a < b || a > b || !(a <= b) {
+            o.fail("dyn-cmp", "Arc<dyn Trait>: partial_cmp / relational operators disagree with the equal values".to_string());
+        }
+        if stream(&a) != stream(&b) || stream(&a) != stream(&*a) {
+            o.fail("dyn-hash", "Arc<dyn Trait>: equal values of different concrete sizes hash differently".to_string());
+        }
+    }
+}
+
 /// The Borrow contract (what makes `HashMap<K, _>::get(&Q)` work): if a handle type implements `Borrow<[u8]>`
 /// or `Borrow<str>`, the handle and its borrowed form must agree on Hash, Eq and Ord. Arc<[u8]> / Arc<str> do
 /// today; an impl that appears on another handle kind (ThinArc, OffsetArc, ...) is checked through autoref.
@@ -573,6 +646,7 @@ macro_rules! class_impl {
                         opt_checks!(o, a, b, eq5, tx, ty);
                         opt_display_checks(o, (d.x.s.len() as u32).wrapping_mul(0x3f9e_3779) ^ 0x4020_0000);
                         opt_borrow_checks(o, &d.x.s.iter().map(|e| e.to_bits_() as u8).collect::<Vec<u8>>());
+                        dyn_checks(o, d.x.s.len() as u32 + d.y.s.len() as u32);
                     }
                     6 => {
                         let aa = Arc::new(tx.clone());
